@@ -570,3 +570,27 @@ Theorem other_servers_untouched : forall m now s s' o,
   bget (fst (fst (bstep m now o))) s' = bget m s'.
 Proof. exact other_servers_untouched_lemma. Qed.
 Print Assumptions other_servers_untouched.
+
+(* translator tie (wave 9): the octets the edns layer appends below the cache - wireOPTLen as the
+   source has it - are the model's [opt_reserve], the term of the cache's size gate ([fits]) that
+   decides between "served on the reader" and "handed off" for an inline hit *)
+Theorem opt_reserve_is_wireOPTLen : forall (q : iquery) (w : T_ResponseWriter),
+  T_ResponseWriter_noedns w = negb (iq_edns q) ->
+  T_OPT_Option (T_ResponseWriter_opt w) = [] ->
+  (iq_edns q = true ->
+     orb (negb (go_list_eqb N.eqb (T_ResponseWriter_cookie w) [])) (T_ResponseWriter_hasCookieRaw w) = iq_cookie q) ->
+  andb (negb (T_ResponseWriter_hasCookieRaw w)) (negb (go_len (T_ResponseWriter_cookie w) =? 16)%Z) = false ->
+  (61 + go_len (T_EDNS_cookiesecret (T_ResponseWriter_EDNS w)) <= 256)%Z ->
+  andb (negb (go_list_eqb N.eqb (T_EDNS_nsidstr (T_ResponseWriter_EDNS w)) [])) (T_ResponseWriter_nsid w) = false ->
+  T_ResponseWriter_keepalive w = false ->
+  go_ResponseWriter_wireOPTLen w = (opt_reserve q, true).
+Proof. exact gen_opt_reserve. Qed.
+Print Assumptions opt_reserve_is_wireOPTLen.
+
+(* non-vacuity: a UDP client with OPT and a 16-hex-digit cookie, a 32-octet secret: 11 + 4 + 40 *)
+Example wireOPTLen_cookie_client :
+  let w := mk_T_ResponseWriter (mk_T_EDNS (repeat 7%N 32) [] (mk_T_Policy false 0 0 0 0))
+             (mk_T_OPT (mk_T_RR_Header [] 41 1232 0 0) []) 1232 false (repeat 48%N 16) false false false 0 [] false false false in
+  go_ResponseWriter_wireOPTLen w = (55%Z, true) /\
+  opt_reserve (mk_iq 0 0 0 true true 1232 true 100) = 55%Z.
+Proof. vm_compute. split; reflexivity. Qed.
